@@ -270,6 +270,13 @@ func c14HostDial(h Handle, id uint32) (Reply, error) {
 	return Reply{}, errors.New("unknown handle")
 }
 
+// freshBrokerID hands out broker ids for the harness's own establishments. They start far above
+// anything NextId returns, so they never collide with the ids the library allocates itself (the
+// net/rpc Dispense path uses the plugin broker's NextId) — distinct ids are a documented precondition.
+var brokerIDSeq uint32 = 100000
+
+func freshBrokerID() uint32 { return atomic.AddUint32(&brokerIDSeq, 1) }
+
 func hostNextID(h Handle) uint32 {
 	switch hh := h.(type) {
 	case *grpcHandle:
@@ -294,7 +301,7 @@ func c14EndToEnd(cl *plugin.Client, wantProto string) (step string, err error) {
 		return "call", fmt.Errorf("answered over %s/%s, expected %s", h.Proto(), r.Tag.Proto, wantProto)
 	}
 	// plugin -> host callback
-	id := hostNextID(h)
+	id := freshBrokerID()
 	c14HostAccept(h, id)
 	rr, err := h.DoT(Cmd{Op: "broker_dial", ID: id}, 30*time.Second)
 	if err != nil {
@@ -304,7 +311,7 @@ func c14EndToEnd(cl *plugin.Client, wantProto string) (step string, err error) {
 		return "brokered callback (plugin dials host)", fmt.Errorf("answered by %s, expected the host server accepted on id %d", rr.B, id)
 	}
 	// host -> plugin brokered connection
-	id2 := hostNextID(h)
+	id2 := freshBrokerID()
 	if _, err := h.DoT(Cmd{Op: "broker_accept", ID: id2}, 20*time.Second); err != nil {
 		return "brokered connection (host dials plugin)", err
 	}
